@@ -204,6 +204,18 @@ pub fn run(c: &[u64]) -> Vec<i128> {
             if catch(std::panic::AssertUnwindSafe(|| install(&mut idt, Bound::Unbounded, Bound::Unbounded))).is_none() {
                 return vec![PANIC];
             }
+            // every fourth case: the stubs are installed, every gate is then made non-present (its handler
+            // address kept), and the same installation runs again: it must make the gates present again
+            if (*v + *k + *rsp_off) % 4 == 3 {
+                let p = &mut idt as *mut InterruptDescriptorTable as *mut u64;
+                for i in 0..256usize {
+                    let lo = p.add(2 * i).read();
+                    p.add(2 * i).write(lo & !(1u64 << 47));
+                }
+                if catch(std::panic::AssertUnwindSafe(|| install(&mut idt, Bound::Unbounded, Bound::Unbounded))).is_none() {
+                    return vec![PANIC];
+                }
+            }
             let w = raw(&idt);
             let (lo, hi) = (w[2 * *v as usize], w[2 * *v as usize + 1]);
             if lo >> 47 & 1 == 0 || (dirtied && (lo, hi) == (dlo, dhi)) {
